@@ -271,6 +271,10 @@ func c01Outcome(r *vf.Run, id string, res rt.CaseResult, triggers []string, repl
 		}
 	}
 	switch {
+	case res.TimedOut && len(res.MutexStuck) > 0:
+		// a goroutine waiting for a sync.Mutex is not durably blocked, so the bubble never becomes quiescent: a wait-for
+		// cycle among the library's goroutines shows up as the watchdog firing with these goroutines parked in Lock
+		r.Fail(rulePrefix+".deadlock", id, "the bubble never became quiescent and these goroutines of the connection were waiting for a mutex when the watchdog fired:\n"+strings.Join(res.MutexStuck, "\n")+"\nother goroutines of the connection at that moment:\n"+strings.Join(res.Others, "\n"), triggers, replay)
 	case res.TimedOut:
 		r.Inconclusive("real-time watchdog expired inside a bubble")
 	case res.Panic != "":
